@@ -11,9 +11,9 @@ import (
 
 // Ctx carries the loaded program plus the derived call graph and entry points.
 type Ctx struct {
-	memoWhy map[*ssa.Lookup]string
-	memos map[*ssa.Lookup]*memoInfo
-	expReads map[string]map[string][]prefixUse
+	memoWhy           map[*ssa.Lookup]string
+	memos             map[*ssa.Lookup]*memoInfo
+	expReads          map[string]map[string][]prefixUse
 	Repo, Verif, Tier string
 	tables            map[ssa.CallInstruction]*tableInfo
 	constTables       map[*ssa.Global]*[]tableEntry
@@ -660,7 +660,6 @@ func doDump(cx *Ctx, kind string) {
 }
 
 var dumps = map[string]func(cx *Ctx){}
-
 
 // termNameOf: the name a call to f carries in terms and facts (callName's format).
 func termNameOf(f *ssa.Function) string {
